@@ -907,3 +907,71 @@ func TestVerifC16Down(t *testing.T) {
 		try("down")
 	}
 }
+
+// TestVerifC16SlowUpload: a client uploads for longer than any plausible timer in the bridge (21 s) to a server that reads
+// at a steady 4 MiB/s.  Nobody closes: every byte must arrive and neither side may see its connection end.
+func TestVerifC16SlowUpload(t *testing.T) {
+	out := verifOpenOut(t)
+	defer out.close()
+	const total = 84 << 20
+	type srvRes struct {
+		read int
+		err  string
+	}
+	sres := make(chan srvRes, 1)
+	b := startVerifBridge(t, func(sc *verifSrvConn) {
+		buf := make([]byte, 256*1024)
+		r := 0
+		var rerr error
+		for r < total && rerr == nil {
+			var n int
+			n, rerr = io.ReadFull(sc.c, buf)
+			r += n
+			time.Sleep(60 * time.Millisecond)
+		}
+		res := srvRes{read: r}
+		if rerr != nil {
+			res.err = rerr.Error()
+		}
+		sres <- res
+		sc.c.Write([]byte("done"))
+		sc.c.Close()
+	})
+	defer b.stop()
+	c, err := net.Dial("tcp", b.frontAddr)
+	if err != nil {
+		out.emit(map[string]interface{}{"kind": "slow-upload", "err": err.Error()})
+		return
+	}
+	defer c.Close()
+	start := time.Now()
+	buf := make([]byte, 64*1024)
+	for i := range buf {
+		buf[i] = byte(i * 13)
+	}
+	w := 0
+	var werr error
+	for w < total && werr == nil {
+		var n int
+		c.SetWriteDeadline(time.Now().Add(30 * time.Second))
+		n, werr = c.Write(buf)
+		w += n
+	}
+	res := map[string]interface{}{"kind": "slow-upload", "sent_target": total, "client_written": w, "upload_ms": time.Since(start).Milliseconds()}
+	if werr != nil {
+		res["client_err"] = werr.Error()
+	}
+	select {
+	case r := <-sres:
+		res["server_read"] = r.read
+		res["server_err"] = r.err
+	case <-time.After(40 * time.Second):
+		res["server_err"] = "server still reading"
+	}
+	ack := make([]byte, 4)
+	c.SetReadDeadline(time.Now().Add(5 * time.Second))
+	if _, err := io.ReadFull(c, ack); err != nil || string(ack) != "done" {
+		res["ack_err"] = fmt.Sprint(err)
+	}
+	out.emit(res)
+}
